@@ -246,6 +246,7 @@ def release_toggles(ctx, F, rule):
         if ok:
             g = [(vf.render(cond, m, short=True), lab) for (cond, lab, u) in v.guards(dr[0].bb)]
             ok = any("self.%s," % tog in t and lab == 0 for (t, lab) in g) and not any("self.no_open" in t and "self.%s," % tog not in t for (t, lab) in g)
+            ok = ok and [vf.render(x, m, short=True) for x in v.call_args(dr[0])][1:] == ["inode", "handle"]
         ctx.check(rule, "%s/toggle" % nm, ok, "%s does not release the handle exactly when `%s` is off" % (nm, tog), loc=m.loc())
 
 
